@@ -335,4 +335,10 @@ def run(facts, rep, tier, ctx):
         for o in scratch.obligations:
             if o["rule"] == "M":
                 rep.ob(("A/" if w_.asyncw else "") + "R10.10", o["fn"], o["key"].split("|")[2], o["ok"], o["detail"], o["loc"])
+    # R10.11 a removed entry cannot be opened: open_file goes through the marker-aware resolver, whatever the write layer holds
+    # (a stale writer can put bytes back under the marker)
+    from . import c04 as _c04
+    for w_ in (ws, wa):
+        if w_.present():
+            _c04.overlay_read_delegation(facts, rep if not w_.asyncw else _Prefixed(rep, "A"), w_, "R10.11")
     rep.assume("the reserved names ('.whiteout', '*_wo') are not used by callers (excluded by the property)")
